@@ -30,6 +30,8 @@ CONSTANTS PeerSeq,        \* the peers, in the order scenarios create them
           FloodPublish,
           RsSize,         \* RandomSub size estimate
           MaxMsgs, MaxHist, MaxDirect, MaxUnwanted,
+          IdwAhead,       \* an IDONTWANT may name any of the next IdwAhead messages (one id per RPC)
+          IdwPerHb,       \* MaxIDontWantMessages: IDONTWANT RPCs of one peer handled per heartbeat interval
           ExcludeSource, EarlyReturn, FanoutUnfiltered, BatchLocalSkipped, Tolerated
 
 Peers    == {PeerSeq[i] : i \in DOMAIN PeerSeq}
@@ -49,14 +51,15 @@ VARIABLES conn,      \* peers with an outbound stream: PubSub.peers (queue) and 
           firstpub,  \* ticks of the publish that selected the current fanout (coverage only)
           direct, score,
           unw,       \* unw[p][m] = remaining TTL of p's IDONTWANT for message m (0 = none)
+          idwcnt,    \* peerdontwant: IDONTWANT RPCs of p counted in this heartbeat interval
           ticks,     \* heartbeats so far
           nmsg,      \* messages used so far (every publish/forward uses a fresh one)
           fanLost,   \* a heartbeat removed a fanout member since the fanout was selected (coverage)
           last,      \* record of the most recent step
           hist, tags \* history of stimuli, coverage tags collected on the way (scenario generation)
 
-vars  == <<conn, ever, tp, joined, mesh, fanKey, fanout, lastpub, firstpub, direct, score, unw, ticks, nmsg, fanLost, last, hist, tags>>
-mvars == <<conn, ever, tp, joined, mesh, fanKey, fanout, lastpub, firstpub, direct, score, unw, ticks, nmsg, fanLost, last>>
+vars  == <<conn, ever, tp, joined, mesh, fanKey, fanout, lastpub, firstpub, direct, score, unw, idwcnt, ticks, nmsg, fanLost, last, hist, tags>>
+mvars == <<conn, ever, tp, joined, mesh, fanKey, fanout, lastpub, firstpub, direct, score, unw, idwcnt, ticks, nmsg, fanLost, last>>
 
 Gossip == Router = "gossipsub"
 MeshFeature(p) == p \in conn /\ ProtoOf[p] \notin {"flood", "random"}
@@ -71,7 +74,7 @@ View(src, author, m, local, batch, fpost) ==
      floodPublish |-> FloodPublish, D |-> D, tpKnown |-> tp # {}, tp |-> tp, joined |-> Gossip /\ joined,
      mesh |-> mesh, fanout |-> fanout, fanoutPost |-> fpost, direct |-> direct,
      floodp |-> IF Router = "randomsub" THEN {p \in conn : ProtoOf[p] = "flood"} ELSE {p \in Peers : ~MeshFeature(p)},
-     elig |-> Elig, ok |-> OkSet, atThr |-> {p \in Peers : score[p] = Thr}, unwanted |-> Unwanted(m),
+     elig |-> Elig, ok |-> OkSet, atThr |-> {p \in Peers : score[p] = Thr}, unwanted |-> Unwanted(m), unwantedLo |-> {},
      queue |-> conn, rsSize |-> RsSize]
 
 -----------------------------------------------------------------------------
@@ -114,7 +117,7 @@ Rec(h) == hist' = Append(hist, h)
 Other  == last' = [kind |-> "other", fails |-> {}]
 
 Init == /\ conn = {} /\ ever = {} /\ tp = {} /\ joined = FALSE /\ mesh = {} /\ fanKey = FALSE /\ fanout = {}
-        /\ lastpub = NoPub /\ firstpub = NoPub /\ direct = {} /\ score = [p \in Peers |-> 0] /\ unw = NoUnw
+        /\ lastpub = NoPub /\ firstpub = NoPub /\ direct = {} /\ score = [p \in Peers |-> 0] /\ unw = NoUnw /\ idwcnt = [p \in Peers |-> 0]
         /\ ticks = 1 /\ nmsg = 0 /\ fanLost = FALSE /\ last = [kind |-> "none", fails |-> {}] /\ hist = <<>> /\ tags = {}
 
 PeerUp(p, sub) ==
@@ -122,39 +125,42 @@ PeerUp(p, sub) ==
     /\ conn' = conn \cup {p} /\ ever' = ever \cup {p}
     /\ tp' = IF sub THEN tp \cup {p} ELSE tp
     /\ Rec(H("peer", p, ProtoOf[p], 0, sub)) /\ Other
-    /\ UNCHANGED <<joined, mesh, fanKey, fanout, lastpub, firstpub, direct, score, unw, ticks, nmsg, fanLost>>
+    /\ UNCHANGED <<joined, mesh, fanKey, fanout, lastpub, firstpub, direct, score, unw, idwcnt, ticks, nmsg, fanLost>>
 
 Sub(p, v) ==
     /\ p \in conn /\ (p \in tp) # v
     /\ tp' = IF v THEN tp \cup {p} ELSE tp \ {p}
     /\ Rec(H("sub", p, "", 0, v)) /\ Other
-    /\ UNCHANGED <<conn, ever, joined, mesh, fanKey, fanout, lastpub, firstpub, direct, score, unw, ticks, nmsg, fanLost>>
+    /\ UNCHANGED <<conn, ever, joined, mesh, fanKey, fanout, lastpub, firstpub, direct, score, unw, idwcnt, ticks, nmsg, fanLost>>
 
 \* handleGraft: no SUBSCRIBE needed; refused for direct peers and negative scores
 Graft(p) ==
     /\ Gossip /\ joined /\ p \in conn /\ p \notin mesh
     /\ mesh' = IF p \notin direct /\ score[p] >= 0 THEN mesh \cup {p} ELSE mesh
     /\ Rec(H("graft", p, "", 0, FALSE)) /\ Other
-    /\ UNCHANGED <<conn, ever, tp, joined, fanKey, fanout, lastpub, firstpub, direct, score, unw, ticks, nmsg, fanLost>>
+    /\ UNCHANGED <<conn, ever, tp, joined, fanKey, fanout, lastpub, firstpub, direct, score, unw, idwcnt, ticks, nmsg, fanLost>>
 
 SetScore(p, v) ==
     /\ Gossip /\ p \in conn /\ score[p] # v
     /\ score' = [score EXCEPT ![p] = v]
     /\ Rec(H("score", p, "", v, FALSE)) /\ Other
-    /\ UNCHANGED <<conn, ever, tp, joined, mesh, fanKey, fanout, lastpub, firstpub, direct, unw, ticks, nmsg, fanLost>>
+    /\ UNCHANGED <<conn, ever, tp, joined, mesh, fanKey, fanout, lastpub, firstpub, direct, unw, idwcnt, ticks, nmsg, fanLost>>
 
 SetDirect(p) ==
     /\ Gossip /\ p \in conn /\ p \notin direct /\ Cardinality(direct) < MaxDirect
     /\ direct' = direct \cup {p}
     /\ Rec(H("direct", p, "", 0, TRUE)) /\ Other
-    /\ UNCHANGED <<conn, ever, tp, joined, mesh, fanKey, fanout, lastpub, firstpub, score, unw, ticks, nmsg, fanLost>>
+    /\ UNCHANGED <<conn, ever, tp, joined, mesh, fanKey, fanout, lastpub, firstpub, score, unw, idwcnt, ticks, nmsg, fanLost>>
 
-\* IDONTWANT for the message that will be accepted next
-IDontWant(p) ==
-    /\ Gossip /\ p \in conn /\ nmsg < MaxMsgs /\ unw[p][nmsg + 1] = 0
-    /\ Cardinality({x \in Peers : \E m \in Msgs : unw[x][m] > 0}) < MaxUnwanted
-    /\ unw' = [unw EXCEPT ![p][nmsg + 1] = IDWTTL]
-    /\ Rec(H("idontwant", p, "", nmsg + 1, FALSE)) /\ Other
+\* one IDONTWANT RPC naming the k-th message from now (handleIDontWant: RPCs beyond the per-heartbeat budget are
+\* ignored; the ids of successive RPCs ACCUMULATE in the peer's set)
+IDontWant(p, k) ==
+    /\ Gossip /\ p \in conn /\ k \in (nmsg + 1)..Min2(nmsg + IdwAhead, MaxMsgs)
+    /\ Cardinality({x \in Peers : \E m \in Msgs : unw[x][m] > 0} \cup {p}) <= MaxUnwanted
+    /\ IF idwcnt[p] < IdwPerHb
+         THEN unw' = [unw EXCEPT ![p][k] = IDWTTL] /\ idwcnt' = [idwcnt EXCEPT ![p] = @ + 1]
+         ELSE UNCHANGED <<unw, idwcnt>>
+    /\ Rec(H("idontwant", p, "", k, FALSE)) /\ Other
     /\ UNCHANGED <<conn, ever, tp, joined, mesh, fanKey, fanout, lastpub, firstpub, direct, score, ticks, nmsg, fanLost>>
 
 \* RemovePeer + clearPeerFromTopicsState
@@ -162,6 +168,7 @@ Down(p) ==
     /\ p \in conn
     /\ conn' = conn \ {p} /\ tp' = tp \ {p} /\ mesh' = mesh \ {p} /\ fanout' = fanout \ {p}
     /\ unw' = [unw EXCEPT ![p] = [m \in Msgs |-> 0]]
+    /\ UNCHANGED idwcnt
     /\ Rec(H("down", p, "", 0, FALSE)) /\ Other
     /\ UNCHANGED <<ever, joined, fanKey, lastpub, firstpub, direct, score, ticks, nmsg, fanLost>>
 
@@ -175,7 +182,7 @@ Subscribe ==
             IN \E S \in SubsetsOfSize(cands, need) : mesh' = kept \cup S
     /\ fanout' = {} /\ fanKey' = FALSE /\ lastpub' = NoPub /\ firstpub' = NoPub /\ fanLost' = FALSE
     /\ Rec(H("subscribe", "", "", 0, FALSE)) /\ Other
-    /\ UNCHANGED <<conn, ever, tp, direct, score, unw, ticks, nmsg>>
+    /\ UNCHANGED <<conn, ever, tp, direct, score, unw, idwcnt, ticks, nmsg>>
 
 \* heartbeat: mesh (negative scores pruned, refill when below Dlo), fanout expiry and maintenance, IDONTWANT TTL
 Heartbeat ==
@@ -188,6 +195,7 @@ Heartbeat ==
         fneed   == IF fanKey /\ Cardinality(fkept) < D THEN Min2(D - Cardinality(fkept), Cardinality(fcands)) ELSE 0
     IN /\ ticks' = ticks + 1
        /\ unw' = [p \in Peers |-> [m \in Msgs |-> IF unw[p][m] > 0 THEN unw[p][m] - 1 ELSE 0]]
+       /\ idwcnt' = [p \in Peers |-> 0]
        /\ \E S \in SubsetsOfSize(mcands, mneed) : mesh' = mkept \cup S
        /\ IF expired THEN fanout' = {} /\ fanKey' = FALSE /\ lastpub' = NoPub /\ firstpub' = NoPub /\ fanLost' = FALSE
           ELSE /\ \E S \in SubsetsOfSize(fcands, fneed) : fanout' = (IF fanKey THEN fkept ELSE fanout) \cup S
@@ -210,9 +218,10 @@ DoMsg(src, author, local, batch, h) ==
           /\ firstpub' = IF fanout = {} /\ o.fan # {} THEN ticks ELSE firstpub
           /\ LET v == View(src, author, m, local, batch, o.fan)
              IN last' = [kind |-> IF src = Self THEN "pub" ELSE "fwd", v |-> v, R |-> o.R, lost |-> fanLost,
+                         multi |-> [p \in Peers |-> Cardinality({x \in Msgs : unw[p][x] > 0}) >= 2],
                          fails |-> StepFailures(v, o.R, o.R)]
     /\ nmsg' = nmsg + 1 /\ Rec(h)
-    /\ UNCHANGED <<conn, ever, tp, joined, mesh, direct, score, unw, ticks, fanLost>>
+    /\ UNCHANGED <<conn, ever, tp, joined, mesh, direct, score, unw, idwcnt, ticks, fanLost>>
 
 \* batch = the message is part of a batch; consecutive batch publications of a history form ONE PublishBatch call
 Publish(local, batch) == /\ (batch => Gossip)
@@ -227,6 +236,9 @@ Forward(src, author) ==
 LastTags ==
     CASE last.kind \in {"pub", "fwd"} ->
            StepTags(last.v, last.R)
+           \cup Tag(Gossip /\ ~last.v.local /\ ~FloodMode(last.v)
+                    /\ \E p \in (last.v.unwanted \cap (last.v.mesh \cup last.v.fanout) \cap last.v.queue) \ (Excl(last.v) \cup DirectIn(last.v)) : last.multi[p],
+                    "idontwant-several-rpcs")
            \cup Tag(last.lost /\ Gossip /\ ~last.v.local /\ ~last.v.joined /\ ~FloodMode(last.v) /\ last.v.fanout # {},
                     "fanout-reuse-after-member-removed")
       [] last.kind = "hb" -> Tag(last.expired, "fanout-expiry")
@@ -237,7 +249,8 @@ LastTags ==
       [] OTHER -> {}
 
 Step == \/ \E p \in Peers, b \in BOOLEAN : PeerUp(p, b) \/ Sub(p, b)
-        \/ \E p \in Peers : Graft(p) \/ SetDirect(p) \/ IDontWant(p) \/ Down(p)
+        \/ \E p \in Peers : Graft(p) \/ SetDirect(p) \/ Down(p)
+        \/ \E p \in Peers, k \in Msgs : IDontWant(p, k)
         \/ \E p \in Peers, v \in ScoreVals : SetScore(p, v)
         \/ Subscribe \/ Heartbeat
         \/ \E b, c \in BOOLEAN : Publish(b, c)
